@@ -23,7 +23,7 @@ Clauses of the property and where they are:
 * missing data policy — `eop_policy_spec`, `eop_lookup_day`
 * "as tabulated by IERS for that day" (the lookups at and between the tables' own abscissae, for every sorted table and every
   argument) — `tai_utc_lookup_spec`, `tai_utc_at_entry`, `tai_utc_between`, `tai_utc_after_last`, `tai_utc_before_first`,
-  `tai_utc_of_day`, `eop_record_of_day`, `eop_record_spec`, and on the regenerated `tai-utc.dat`: `leap_table_lookup`,
+  `last_next_spec`, `tai_utc_of_day`, `eop_record_of_day`, `eop_record_spec`, and on the regenerated `tai-utc.dat`: `leap_table_lookup`,
   `leap_table_is_parsed_file`
 * arithmetic — `add_clock` (the clock reading moves by exactly t, every scale), `add_sub`, `add_sub_const_scales`,
   `add_assoc_clock`, `add_assoc_instant`
@@ -546,6 +546,20 @@ theorem tai_utc_after_last {l : List (Int × Int)} {e : Int × Int} {num : Int} 
 /-- **before the first entry: no value** (the code raises `KeyError`; `EopDb.get` then applies the policy) -/
 theorem tai_utc_before_first {e : Int × Int} {l : List (Int × Int)} (hs : Sorted (e :: l)) {num : Int}
     (h : num < e.1 * D) : taiUtcAt (e :: l) num = none := taiUtcAt_before_first hs h
+
+/-- **`TaiUtc.get_last_next`** (the other lookup of the leap-second reader): `past` is the entry the TAI−UTC lookup uses;
+with the table split at the last entry whose date is `≤ mjd`, `future` is the entry that follows it (none after the
+last); before the first entry there is no `past` and `future` is the first entry -/
+theorem last_next_spec (leap : List (Int × Int)) (num : Int) :
+    ((lastNext leap num).1.map (·.2) = taiUtcAt leap num) ∧
+    (∀ l e r, leap = l ++ e :: r → e.1 * D ≤ num → (∀ b ∈ r, num < b.1 * D) → lastNext leap num = (some e, r.head?)) ∧
+    ((∀ b ∈ leap, num < b.1 * D) → lastNext leap num = (none, leap.head?)) :=
+  ⟨lastNext_past leap num, fun _ _ _ hl he hr => hl ▸ lastNext_split he hr, fun h => lastNext_before h⟩
+
+example : lastNext [(10, 5), (20, 6), (30, 7)] (20 * D) = (some (20, 6), some (30, 7)) ∧
+    lastNext [(10, 5), (20, 6), (30, 7)] (20 * D - 1) = (some (10, 5), some (20, 6)) ∧
+    lastNext [(10, 5), (20, 6), (30, 7)] (30 * D) = (some (30, 7), none) ∧
+    lastNext [(10, 5), (20, 6), (30, 7)] (10 * D - 1) = (none, some (10, 5)) := by decide
 
 /-- **TAI−UTC "for that day"**: the value is a function of the day number `⌊mjd⌋` alone -/
 theorem tai_utc_of_day (leap : List (Int × Int)) (num : Int) : taiUtcAt leap num = taiUtcAt leap (num / D * D) :=
